@@ -25,7 +25,8 @@ PathSrc(segs) ==
   segs[1].v \o JoinStr([i \in 1..(Len(segs) - 1) |->
       LET s == segs[i + 1] IN
       CASE s.t = "k" -> IF "br" \in DOMAIN s /\ s.br THEN "['" \o s.v \o "']" ELSE "." \o s.v
-        [] s.t = "i" -> "[" \o ToString(s.i) \o "]"
+        [] s.t = "i" -> IF "sh" \in DOMAIN s THEN "." \o ToString(s.i)      \* shorthand: foo.0 (Environment.shorthand_indexes)
+                        ELSE "[" \o ToString(s.i) \o "]"
         [] s.t = "p" -> "[" \o PathSrc(s.p) \o "]"], "")
 
 FilterSrc(f) ==
@@ -42,7 +43,7 @@ Operand(e, p, side) ==
 
 ESrc(e) ==
   CASE e.k \in {"nil", "true", "false", "empty", "blank"} -> e.k
-    [] e.k = "int"   -> ToString(e.n)
+    [] e.k = "int"   -> IF "txt" \in DOMAIN e THEN e.txt ELSE ToString(e.n)     \* 1e1 is 10
     [] e.k = "float" -> e.txt                      \* as the author wrote it (1.50, 2.5e1 ...)
     [] e.k = "str"   -> Quote(e) \o e.v \o Quote(e)
     [] e.k = "var"   -> PathSrc(e.segs)
